@@ -60,6 +60,10 @@ func clonePolicy(p *wPolicy) *wPolicy {
 	q.TargetsKeys = append([]int{}, p.TargetsKeys...)
 	q.RootSigners = append([]int{}, p.RootSigners...)
 	q.Globals = append([]wGlobal{}, p.Globals...)
+	q.Controllers = nil
+	for _, ct := range p.Controllers {
+		q.Controllers = append(q.Controllers, wController{Name: ct.Name, Globals: append([]wGlobal{}, ct.Globals...)})
+	}
 	q.Files = nil
 	for _, f := range p.Files {
 		nf := &wFile{Version: f.Version, Signers: append([]int{}, f.Signers...)}
@@ -139,14 +143,31 @@ func basePolicy(r *rand.Rand, profile string) *wPolicy {
 	return p
 }
 
-func addGlobals(r *rand.Rand, p *wPolicy) {
-	n := 1 + r.Intn(2)
+func genGlobals(r *rand.Rand, n int, prefix string) []wGlobal {
+	out := []wGlobal{}
 	for i := 0; i < n; i++ {
 		pats := [][]string{{"git:" + refMain}, {"git:refs/heads/*"}, {"git:refs/tags/*"}, {"git:refs/heads/nomatch"}, {"git:*"}}[r.Intn(5)]
 		if r.Intn(2) == 0 {
-			p.Globals = append(p.Globals, wGlobal{Kind: "threshold", Name: fmt.Sprintf("g-thr-%d", i), Pats: pats, K: 1 + r.Intn(3)})
+			out = append(out, wGlobal{Kind: "threshold", Name: fmt.Sprintf("%sg-thr-%d", prefix, i), Pats: pats, K: 1 + r.Intn(3)})
 		} else {
-			p.Globals = append(p.Globals, wGlobal{Kind: "blockforce", Name: fmt.Sprintf("g-bfp-%d", i), Pats: pats})
+			out = append(out, wGlobal{Kind: "blockforce", Name: fmt.Sprintf("%sg-bfp-%d", prefix, i), Pats: pats})
+		}
+	}
+	return out
+}
+
+// addGlobals declares global rules: the repository's own and/or ones inherited through the copies of
+// controller repositories' metadata in the policy tree.
+func addGlobals(r *rand.Rand, p *wPolicy) {
+	where := r.Intn(4) // 0,1: own; 2: own and inherited; 3: inherited only
+	if where <= 2 {
+		p.Globals = append(p.Globals, genGlobals(r, 1+r.Intn(2), "")...)
+	}
+	if where >= 2 {
+		p.Controllers = nil
+		for ci := 0; ci < 1+r.Intn(2); ci++ {
+			name := fmt.Sprintf("ctl%d-aHR0cHM6Ly9leGFtcGxlLmNvbS9j", ci)
+			p.Controllers = append(p.Controllers, wController{Name: name, Globals: genGlobals(r, r.Intn(3), fmt.Sprintf("c%d-", ci))})
 		}
 	}
 }
@@ -211,6 +232,7 @@ func mutatePolicy(r *rand.Rand, cur *wPolicy, allowBad bool) (*wPolicy, string) 
 	case "drop-global":
 		p.RootVersion++
 		p.Globals = nil
+		p.Controllers = nil
 	case "BAD-root-unsigned":
 		p.RootVersion++
 		p.RootSigners = nil
@@ -786,6 +808,7 @@ func stripGlobals(w *wWorld) *wWorld {
 		if e.Pol != nil {
 			e2.Pol = clonePolicy(e.Pol)
 			e2.Pol.Globals = nil
+			e2.Pol.Controllers = nil
 		}
 		w2.Events = append(w2.Events, e2)
 	}
